@@ -296,3 +296,28 @@ MUTANTS["C02"] = [
       "        else:\n            if lenient:\n                return\n\n            raise CannotParseArgsException.too_many_arguments()\n\n    def _parse_long_option", twin=True),
     M("twin-chained-bound", AFB, "            return 0 <= name < len(arguments)", "            return name >= 0 and name < len(arguments)", twin=True),
 ]
+
+MUTANTS["C06"] = [
+    M("insert-before-check", AFB,
+      "        if self.has_option(short_name) or self.has_command_option(short_name):\n            raise CannotAddOptionException.already_exists(short_name)\n\n        self._options[long_name] = option\n",
+      "        self._options[long_name] = option\n\n        if self.has_option(short_name) or self.has_command_option(short_name):\n            raise CannotAddOptionException.already_exists(short_name)\n", expect="C06-R1"),
+    M("alias-collision-loop-removed", AFB,
+      "        for long_alias in long_aliases:\n            if self.has_option(long_alias) or self.has_command_option(long_alias):\n                raise CannotAddOptionException.already_exists(long_alias)\n\n", "", expect="C06-R5"),
+    M("short-name-vs-command-options-unchecked", AFB,
+      "        if self.has_option(short_name) or self.has_command_option(short_name):\n            raise CannotAddOptionException.already_exists(short_name)\n\n        self._options[long_name] = option\n",
+      "        if self.has_option(short_name):\n            raise CannotAddOptionException.already_exists(short_name)\n\n        self._options[long_name] = option\n", expect="C06-R5"),
+    M("get-option-no-base-fallthrough", AFB,
+      "            return self._options_by_short_name[name]\n\n        if include_base and self._base_format:\n            return self._base_format.get_option(name)\n\n        raise NoSuchOptionException(name)\n\n    def get_options",
+      "            return self._options_by_short_name[name]\n\n        raise NoSuchOptionException(name)\n\n    def get_options", expect="C06-R"),
+    M("multi-valued-marker-not-recorded", AFB, "        if argument.is_multi_valued():\n            self._has_multi_valued_arg = True\n\n", "", expect="C06-R5"),
+    M("required-after-optional-check-removed", AFB, "        if argument.is_required() and self.has_optional_argument():\n            raise CannotAddArgumentException.cannot_add_required_after_optional()\n\n", "", expect="C06-R5"),
+    M("f3-regression", AFM, "builder = self._create_builder_for_elements(elements, base_format)", "builder = self._create_builder_for_elements(elements)", expect="C06-R2"),
+    M("f4-regression", AFB, "            base_arguments = self._base_format.get_arguments()\n            base_arguments.update(arguments)\n            arguments = base_arguments\n\n        return arguments\n\n    def set_options",
+      "            arguments.update(self._base_format.get_arguments())\n\n        return arguments\n\n    def set_options", expect="C06-R3"),
+    M("f22-regression", AFM, "self._command_names = list(builder.get_command_names(False))", "self._command_names = builder.get_command_names(False)", expect="C06-R6"),
+    M("format-has-option-ignores-short", AFM, "        if name in self._options or name in self._options_by_short_name:\n            return True\n\n        if include_base and self._base_format:\n            return self._base_format.has_option(name)",
+      "        if name in self._options:\n            return True\n\n        if include_base and self._base_format:\n            return self._base_format.has_option(name)", expect="C06-R"),
+    M("marker-not-mirrored", AFM, "        self._has_multi_valued_arg = builder.has_multi_valued_argument(False)\n", "", expect="C06-R3"),
+    M("twin-rename-local", AFB, "        long_name = option.long_name\n        short_name = option.short_name\n\n        if self.has_option(long_name) or self.has_command_option(long_name):\n            raise CannotAddOptionException.already_exists(long_name)\n\n        if self.has_option(short_name) or self.has_command_option(short_name):\n            raise CannotAddOptionException.already_exists(short_name)\n\n        self._options[long_name] = option\n\n        if short_name:\n            self._options_by_short_name[short_name] = option",
+      "        ln = option.long_name\n        sn = option.short_name\n\n        if self.has_option(ln) or self.has_command_option(ln):\n            raise CannotAddOptionException.already_exists(ln)\n\n        if self.has_option(sn) or self.has_command_option(sn):\n            raise CannotAddOptionException.already_exists(sn)\n\n        self._options[ln] = option\n\n        if sn:\n            self._options_by_short_name[sn] = option", twin=True),
+]
